@@ -153,16 +153,17 @@ type rxjQueryFacts struct {
 
 func rxjQueryEval(repo string, cNames []string, cVals []int64) (*rxjQueryFacts, error) {
 	type built struct{ SQL, State string }
+	type one struct {
+		C                               int
+		SQL, Err, State, NoDist, NoRepo string
+	}
 	var ans struct {
-		Base, VersionFilter, KindMarker, DistCPE, RepoCPE string
-		Constraints                                       []struct {
-			C                               int
-			SQL, Err, State, NoDist, NoRepo string
-		}
-		Source struct {
-			Base      string
-			NilSource built
-			Empty     map[string]built
+		DistCPE, RepoCPE string
+		Source           struct {
+			Base, VersionFilter string
+			NilSource           built
+			Empty               map[string]built
+			Constraints         []one
 		}
 	}
 	ints := make([]int, len(cVals))
@@ -172,8 +173,8 @@ func rxjQueryEval(repo string, cNames []string, cVals []int64) (*rxjQueryFacts, 
 	if err := rxProbe(repo, "querybuilder", map[string]any{"constraints": ints}, &ans); err != nil {
 		return nil, err
 	}
-	if ans.Base == "" || ans.Source.Base == "" || len(ans.Constraints) != len(ints) {
-		return nil, fmt.Errorf("querybuilder probe: buildGetQuery gives no query for the base record (or a short answer)")
+	if ans.Source.Base == "" || len(ans.Source.Constraints) != len(ints) {
+		return nil, fmt.Errorf("querybuilder probe: buildGetQuery gives no query for the complete record (or a short answer)")
 	}
 	field := func(lit string) string {
 		v := strings.ReplaceAll(strings.Trim(lit, "'"), "''", "'")
@@ -216,35 +217,25 @@ func rxjQueryEval(repo string, cNames []string, cVals []int64) (*rxjQueryFacts, 
 		return out, nil
 	}
 	qf := &rxjQueryFacts{}
-	// ---- the package condition: the first operand of the WHERE conjunction
-	bt, err := top(ans.Base)
+	// ---- the package condition: the first operand of the WHERE conjunction, for a package with a source
+	bt, err := top(ans.Source.Base)
 	if err != nil {
 		return nil, err
 	}
-	if qf.pkgClause, err = clause(bt[0]); err != nil {
-		return nil, err
-	}
-	st, err := top(ans.Source.Base)
-	if err != nil {
-		return nil, err
-	}
-	if len(st) != len(bt) {
-		return nil, fmt.Errorf("a source package changes the number of conditions of the query (%d, without %d)", len(st), len(bt))
-	}
-	for i := 1; i < len(bt); i++ {
-		if st[i].String() != bt[i].String() {
-			return nil, fmt.Errorf("a source package changes the condition %s to %s", bt[i], st[i])
+	pkgNode := bt[0]
+	if bt[0].op == "OR" {
+		if len(bt[0].kids) != 2 {
+			return nil, fmt.Errorf("the package condition %s has %d alternatives: not `<package condition> OR <source condition>`", bt[0], len(bt[0].kids))
 		}
-	}
-	switch {
-	case st[0].op == "OR" && len(st[0].kids) == 2 && st[0].kids[0].String() == bt[0].String():
-		if qf.srcClause, err = clause(st[0].kids[1]); err != nil {
+		pkgNode = bt[0].kids[0]
+		if qf.srcClause, err = clause(bt[0].kids[1]); err != nil {
 			return nil, err
 		}
-	case st[0].String() == bt[0].String():
+	} else {
 		qf.srcClause = [][2]string{} // the source package is not looked at
-	default:
-		return nil, fmt.Errorf("with a source package the package condition is %s: not `<package condition> OR <source condition>`", st[0])
+	}
+	if qf.pkgClause, err = clause(pkgNode); err != nil {
+		return nil, err
 	}
 	// ---- guards: which empty field removes the source alternative / makes the record refused
 	var srcGuards, nameGuards []string
@@ -260,16 +251,26 @@ func rxjQueryEval(repo string, cNames []string, cVals []int64) (*rxjQueryFacts, 
 			nameGuards = append(nameGuards, k)
 		case b.State != "ok":
 			return nil, fmt.Errorf("buildGetQuery panics on a record whose %s is empty", k)
-		case strings.HasPrefix(k, "Package.Source.") && b.SQL == ans.Base:
-			srcGuards = append(srcGuards, k)
+		case strings.HasPrefix(k, "Package.Source.") && bt[0].op == "OR":
+			et, err := top(b.SQL)
+			if err != nil {
+				return nil, err
+			}
+			if et[0].String() == pkgNode.String() {
+				srcGuards = append(srcGuards, k)
+			}
 		}
 	}
 	qf.srcGuard = strings.Join(srcGuards, "|")
 	qf.nameGuard = strings.Join(nameGuards, "|")
 	switch ans.Source.NilSource.State {
 	case "ok":
-		if ans.Source.NilSource.SQL != ans.Base {
-			return nil, fmt.Errorf("querybuilder probe: two builds of the same record differ")
+		nt, err := top(ans.Source.NilSource.SQL)
+		if err != nil {
+			return nil, err
+		}
+		if nt[0].String() != pkgNode.String() {
+			return nil, fmt.Errorf("for a package without a source the package condition is %s, with one it starts with %s: outside what Gen/JoinQuery can say", nt[0], pkgNode)
 		}
 		qf.srcNilGuard = true
 	case "panic":
@@ -288,7 +289,7 @@ func rxjQueryEval(repo string, cNames []string, cVals []int64) (*rxjQueryFacts, 
 	}
 	got := map[string]qc{}
 	guards := map[string]bool{}
-	for i, c := range ans.Constraints {
+	for i, c := range ans.Source.Constraints {
 		name := cNames[i]
 		if c.State == "panic" {
 			return nil, fmt.Errorf("buildGetQuery panics on constraint %s for a complete record", name)
@@ -376,7 +377,7 @@ func rxjQueryEval(repo string, cNames []string, cVals []int64) (*rxjQueryFacts, 
 		return nil, fmt.Errorf("buildGetQuery knows no constraint")
 	}
 	// ---- version filtering
-	vt, err := top(ans.VersionFilter)
+	vt, err := top(ans.Source.VersionFilter)
 	if err != nil {
 		return nil, err
 	}
